@@ -137,6 +137,9 @@ impl BinaryHandler {
             binary_codec::BinaryRequest::ItemTooLarge(_set_request) => Some(
                 storage_error_to_response(CacheError::ValueTooLarge, &mut response_header),
             ),
+            binary_codec::BinaryRequest::NotSupported(_request) => Some(
+                storage_error_to_response(CacheError::UnkownCommand, &mut response_header),
+            ),
         }
     }
 
